@@ -7,11 +7,23 @@ Description
 All exceptions exposed by the Vtl engine.
 """
 
+import threading
 from typing import Any, List, Optional
 
 from vtlengine.Exceptions.messages import centralised_messages
 
-dataset_output = None
+# Name of the result the interpreter is currently computing (quoted in error messages).
+# Kept per thread: calls made concurrently from several threads must not name each
+# other's results in their errors.
+_current = threading.local()
+
+
+def set_dataset_output(name: Optional[str]) -> None:
+    _current.dataset_output = name
+
+
+def current_output() -> Optional[str]:
+    return getattr(_current, "dataset_output", None)
 
 
 class VTLEngineException(Exception):
@@ -45,6 +57,7 @@ class SemanticError(VTLEngineException):
     comp_code = None
 
     def __init__(self, code: str, comp_code: Optional[str] = None, **kwargs: Any) -> None:
+        dataset_output = current_output()
         if dataset_output:
             message = (
                 centralised_messages[code]["message"].format(**kwargs)
@@ -71,6 +84,7 @@ class RunTimeError(VTLEngineException):
         **kwargs: Any,
     ) -> None:
         message = centralised_messages[code]["message"].format(**kwargs)
+        dataset_output = current_output()
         if dataset_output:
             message += self.output_message + str(dataset_output)
 
@@ -167,6 +181,7 @@ class DataLoadError(VTLEngineException):
         **kwargs: Any,
     ) -> None:
         message = centralised_messages[code]["message"].format(**kwargs)
+        dataset_output = current_output()
         if dataset_output:
             message += self.output_message + " " + str(dataset_output)
         else:
